@@ -483,7 +483,7 @@ static RunOutcome check_crash(const std::string &prop, const Plan &P, int tier) 
         }
         if (points.size() > max_points) {   // sample, biased to the tail (close sequence) and keeping every boundary when possible
             std::vector<std::pair<size_t, size_t>> sel;
-            for (auto &pt : points) { bool boundary = pt.second == 0; double keep = (double) max_points / points.size(); if (boundary) keep *= 3; if (pt.first + 60 >= mut.size()) keep *= 4; if (r.chance(std::min(1.0, keep))) sel.push_back(pt); }
+            for (auto &pt : points) { bool boundary = pt.second == 0; double keep = (double) max_points / points.size(); if (boundary) keep *= 3; if (pt.first + 60 >= mut.size()) keep *= 4; if (pt.first >= mut.size()) keep = 1.0; /* the closed file itself: always */ if (r.chance(std::min(1.0, keep))) sel.push_back(pt); }
             points.swap(sel);
         }
         std::vector<uint8_t> img;
@@ -513,7 +513,15 @@ static RunOutcome check_crash(const std::string &prop, const Plan &P, int tier) 
             else if (cur_op < (int) P.ops.size() && (P.ops[cur_op].kind == OP_SRC || P.ops[cur_op].kind == OP_SIG)) defs_on_disk = false;
             const char *PATH_C = "/sim/crash.jls";
             simfs::put(PATH_C, img);
+            uint64_t mut0 = 0, ow0 = 0; { SFile *c0 = simfs::get(PATH_C); if (c0) { mut0 = c0->n_mut; ow0 = c0->n_open_w; } }
             Dump d1; RunStatus st = exec::read_dump(P, PATH_C, d1, false);
+            if (ih == closed_hash && st == RUN_OK) {      // C19, first clause: a properly closed, undamaged file is never modified by opening and reading it
+                SFile *c1 = simfs::get(PATH_C);
+                if (c1 && (c1->n_mut != mut0 || c1->n_open_w != ow0 || c1->bytes != img))
+                    add_violation(lv, "C19", "closed_file_modified_by_reading", fmt("the closed, undamaged file received %llu mutating backend calls and %llu opens for writing while it was opened and read%s",
+                                  (unsigned long long) (c1->n_mut - mut0), (unsigned long long) (c1->n_open_w - ow0), c1->bytes != img ? "; its bytes changed" : ""));
+                lo.ctr["closed_files_read_and_compared"]++;
+            }
             std::string where = fmt("stop after %zu of %zu backend writes%s", k, mut.size(), b ? fmt(" + %zu bytes of the next (%llu)", b, (unsigned long long) log[mut[k]].len).c_str() : "");
             if (st != RUN_OK) {
                 add_violation(lv, "C03", std::string("open_") + sim::status_name(st), where + ": opening/reading the image did not terminate (" + sim::status_name(st) + ")");
